@@ -1,5 +1,5 @@
 #!/usr/bin/env python3
-"""atheris target (add-on to C06, not a registered check): bytes -> (code, value) -> write_struct -> independent decoder.
+"""atheris target (run by the thorough tier of C06 and by tools/fuzz.sh): bytes -> (code, value) -> write_struct -> independent decoder.
 
 usage: PYTHONPATH=/repo/src:/verif:/verif/.deps python vf/fuzz/fuzz_struct.py -runs=500000 -seed=1
 """
